@@ -205,14 +205,7 @@ Proof.
     intros fp rest _. change 63 with (7 * 8 + 7). rewrite decode_rm_split by lia.
     cbn [app].
     rewrite !take_word_cons by exact Hw. rewrite rel_roundtrip. reflexivity.
-  - (* OAcc: an ordinary symbol *)
-    destruct sym as [t|]; [|discriminate]. inv H.
-    assert (Hw : is_word (enc_rel t (addr + 2 + 2 * k)) = true) by (unfold enc_rel; change (2 ^ 16) with 65536; apply is_word_mod).
-    split; [lia|]. split; [repeat constructor; exact Hw|]. intros _.
-    eexists. split; [reflexivity|]. split; [reflexivity|].
-    intros fp rest _. change 55 with (6 * 8 + 7). rewrite decode_rm_split by lia.
-    cbn [app].
-    rewrite !take_word_cons by exact Hw. rewrite rel_roundtrip. reflexivity.
+  - discriminate.
 Qed.
 
 (* ------------------------------------------------------------------------------------------ *)
@@ -361,55 +354,55 @@ Proof.
     split; [unfold in_range; cbn; lia|]. split; [constructor|]. intros _.
     exists (SAcc v). cbn [sem_operand]. replace ((0 <=? v) && (v <=? 3)) with true by lia. repeat split.
   - (* branch *)
-    destruct (plain_value o) as [t|] eqn:PV; [|discriminate]. bind_inv H. inv H.
+    destruct o; try discriminate. bind_inv H. inv H.
     pose proof (enc_offset_branch t (addr + 2 + 2 * k)) as P. rewrite Ha in P.
     destruct P as [P1 [P2 [P3 P4]]].
     split; [unfold in_range; cbn; lia|]. split; [constructor|]. intros _.
-    exists (STarget (wrap16 t)). cbn [sem_operand]. rewrite PV.
+    exists (STarget (wrap16 t)). cbn [sem_operand].
     replace (t - (addr + 2 * k + 2)) with (t - (addr + 2 + 2 * k)) by lia. rewrite P1.
     replace (-256 <=? t - (addr + 2 + 2 * k)) with true by lia.
     replace (t - (addr + 2 + 2 * k) <=? 254) with true by lia.
     cbn [andb]. repeat split.
     intros rest. cbn [fld decode_field]. rewrite (branch_target_hits _ _ t) by lia. reflexivity.
   - (* sob *)
-    destruct (plain_value o) as [t|] eqn:PV; [|discriminate]. bind_inv H. inv H.
+    destruct o; try discriminate. bind_inv H. inv H.
     pose proof (enc_offset_sob t (addr + 2 + 2 * k)) as P. rewrite Ha in P.
     destruct P as [P1 [P2 [P3 P4]]].
     split; [unfold in_range; cbn; lia|]. split; [constructor|]. intros _.
-    exists (STarget (wrap16 t)). cbn [sem_operand]. rewrite PV.
+    exists (STarget (wrap16 t)). cbn [sem_operand].
     replace (t - (addr + 2 * k + 2)) with (t - (addr + 2 + 2 * k)) by lia. rewrite P1.
     replace (-126 <=? t - (addr + 2 + 2 * k)) with true by lia.
     replace (t - (addr + 2 + 2 * k) <=? 0) with true by lia.
     cbn [andb]. repeat split.
     intros rest. cbn [fld decode_field]. rewrite (sob_target_hits _ _ t) by lia. reflexivity.
   - (* spl *)
-    assert (exists x, num_value o = Some x /\ enc_imm true 3 x = Ok v /\ ext = []) as [x [Ho [Hx ->]]].
-    { destruct (num_value o) as [x|]; [|discriminate]. bind_inv H. inv H. eauto. }
+    assert (exists x, (o = ORel x \/ o = OImm x) /\ enc_imm true 3 x = Ok v /\ ext = []) as [x [Ho [Hx ->]]].
+    { destruct o; try discriminate; bind_inv H; inv H; eauto. }
     pose proof (enc_imm_spec true 3 x ltac:(lia)) as P. rewrite Hx in P. change (2 ^ 3) with 8 in P.
     destruct P as [P1 [P2 [P3 P4]]].
     split; [unfold in_range; cbn; lia|]. split; [constructor|]. intros _.
     exists (SNum v). split.
-    + cbn [sem_operand]; rewrite Ho; change (2 ^ 3) with 8;
+    + destruct Ho as [-> | ->]; cbn [sem_operand]; change (2 ^ 3) with 8;
         replace ((0 <=? x) && (x <? 8)) with true by lia; rewrite P3; reflexivity.
     + repeat split.
   - (* mark xfc *)
-    assert (exists x, num_value o = Some x /\ enc_imm true 6 x = Ok v /\ ext = []) as [x [Ho [Hx ->]]].
-    { destruct (num_value o) as [x|]; [|discriminate]. bind_inv H. inv H. eauto. }
+    assert (exists x, (o = ORel x \/ o = OImm x) /\ enc_imm true 6 x = Ok v /\ ext = []) as [x [Ho [Hx ->]]].
+    { destruct o; try discriminate; bind_inv H; inv H; eauto. }
     pose proof (enc_imm_spec true 6 x ltac:(lia)) as P. rewrite Hx in P. change (2 ^ 6) with 64 in P.
     destruct P as [P1 [P2 [P3 P4]]].
     split; [unfold in_range; cbn; lia|]. split; [constructor|]. intros _.
     exists (SNum v). split.
-    + cbn [sem_operand]; rewrite Ho; change (2 ^ 6) with 64;
+    + destruct Ho as [-> | ->]; cbn [sem_operand]; change (2 ^ 6) with 64;
         replace ((0 <=? x) && (x <? 64)) with true by lia; rewrite P3; reflexivity.
     + repeat split.
   - (* emt trap *)
-    assert (exists x, num_value o = Some x /\ enc_imm false 8 x = Ok v /\ ext = []) as [x [Ho [Hx ->]]].
-    { destruct (num_value o) as [x|]; [|discriminate]. bind_inv H. inv H. eauto. }
+    assert (exists x, (o = ORel x \/ o = OImm x) /\ enc_imm false 8 x = Ok v /\ ext = []) as [x [Ho [Hx ->]]].
+    { destruct o; try discriminate; bind_inv H; inv H; eauto. }
     pose proof (enc_imm_spec false 8 x ltac:(lia)) as P. rewrite Hx in P. change (2 ^ 8) with 256 in P.
     destruct P as [P1 [P2 [P3 P4]]].
     split; [unfold in_range; cbn; lia|]. split; [constructor|]. intros _.
     exists (SNum v). split.
-    + cbn [sem_operand]; rewrite Ho; change (- 2 ^ 8) with (-256); change (2 ^ 8) with 256;
+    + destruct Ho as [-> | ->]; cbn [sem_operand]; change (- 2 ^ 8) with (-256); change (2 ^ 8) with 256;
         replace ((-256 <? x) && (x <? 256)) with true by lia; rewrite P3; reflexivity.
     + repeat split.
 Qed.
